@@ -18,4 +18,20 @@ PROPS = {
             'layout axioms: align_of::<T>() is a power of two <= 4096 and divides size_of::<T>()',
         ],
     ),
+    'C19': dict(
+        kani=['addr'],
+        level='proof',
+        technique='Kani function contracts (kani::ensures attached to the real macro-generated methods, proof_for_contract) and loop-free full-domain harnesses against 128-bit exact arithmetic',
+        claim='Complete proof (CBMC bit-precise, loop-free, all 2^64 x 2^64 operands, both address types): checked ops return Some exactly when the exact result fits and then that result; overflowing ops return the wrapped value and the exact flag; unchecked ops equal the exact result when it fits; checked_align_up returns Some(r) exactly when the least multiple of 2^k >= a fits, for all 64 k; mask/&/| act on the raw value; ==,<,<=,cmp,max follow raw values.',
+        unbounded='all harnesses loop-free over full 64-bit domains => complete, not bounded',
+        assumptions=A_COMMON[:1] + ['contracts are injected as #[cfg_attr(kani, kani::ensures(..))] attribute lines into a scratch copy (overlay O2); the function bodies CBMC analyses are /repo\'s unmodified text'],
+    ),
+    'C20': dict(
+        kani=['endian'],
+        level='proof',
+        technique='Kani loop-free full-domain harnesses against std to_le_bytes/to_be_bytes',
+        claim='Complete proof for all values of all 8 wrapper types: from/to_native round trip, as_slice() bytes equal to_le_bytes/to_be_bytes, equality with a native integer (both operand orders) true exactly for the represented value, size_of/align_of equal the native type; write_obj of a wrapper leaves exactly the wire bytes in a VolatileSlice (all offsets of a 16-byte buffer).',
+        unbounded='fully symbolic value per type; compare loops have fixed <= 8 iterations and are fully unwound',
+        assumptions=A_COMMON[:1] + ['host endianness is the build target\'s (x86_64 little-endian); the big-endian-host half of "regardless of the host" is by the same std functions, not re-proved on a BE target'],
+    ),
 }
